@@ -5,6 +5,7 @@ import (
 	"errors"
 	"fmt"
 	"sort"
+	"sync/atomic"
 	"time"
 
 	"github.com/weedbox/pokerface"
@@ -98,6 +99,8 @@ func (s *Sim) Submit(pid string, gameIdx int, kind string, arg int64, d *Decisio
 
 // Do dispatches an action kind to the API.
 func (s *Sim) Do(pid, kind string, arg int64) error {
+	atomic.AddInt64(&s.opSeq, 1)
+	defer atomic.AddInt64(&s.opSeq, 1)
 	switch kind {
 	case "ready":
 		return s.API.PlayerReady(pid)
